@@ -536,23 +536,44 @@ fn spawn_workers(
     Ok(out)
 }
 
-/// Runs exactly one run index in a child process; returns Some(signal) if the child was killed
-/// by a signal, Some(0) if it exited normally, None if it could not be started.
-fn run_single_child(prop: &str, tier: Tier, base: u64, idx: u64, known_path: &str) -> Option<i32> {
+/// Runs `count` run indices (start, start+stride, ...) in a child process. Returns
+/// (signal that killed it or 0, violation it reported if it finished).
+fn run_child_share(
+    prop: &str,
+    tier: Tier,
+    base: u64,
+    start: u64,
+    stride: u64,
+    count: u64,
+    known_path: &str,
+) -> Option<(i32, Option<ViolationReport>)> {
     use std::os::unix::process::ExitStatusExt;
     let exe = std::env::current_exe().ok()?;
-    let st = std::process::Command::new(exe)
+    let o = std::process::Command::new(exe)
         .arg("worker")
         .args(["--prop", prop, "--tier", tier.as_str()])
         .args(["--base-seed", &base.to_string()])
-        .args(["--start", &idx.to_string(), "--stride", "1", "--count", "1"])
+        .args(["--start", &start.to_string(), "--stride", &stride.to_string()])
+        .args(["--count", &count.to_string()])
         .args(["--known", known_path, "--no-minimise"])
         .stdin(std::process::Stdio::null())
-        .stdout(std::process::Stdio::null())
+        .stdout(std::process::Stdio::piped())
         .stderr(std::process::Stdio::null())
-        .status()
+        .output()
         .ok()?;
-    Some(st.signal().unwrap_or(0))
+    let sig = o.status.signal().unwrap_or(0);
+    let so = String::from_utf8_lossy(&o.stdout);
+    let viol = so
+        .lines()
+        .rev()
+        .find(|l| l.starts_with("SUMMARY "))
+        .and_then(|l| serde_json::from_str::<WorkerSummary>(&l["SUMMARY ".len()..]).ok())
+        .and_then(|s| s.violation);
+    Some((sig, viol))
+}
+
+fn run_single_child(prop: &str, tier: Tier, base: u64, idx: u64, known_path: &str) -> Option<i32> {
+    run_child_share(prop, tier, base, idx, 1, 1, known_path).map(|x| x.0)
 }
 
 fn run_main(world: &dyn World, args: &Args) -> i32 {
@@ -651,46 +672,60 @@ fn run_main(world: &dyn World, args: &Args) -> i32 {
     // A worker killed by a signal: the system under test crashed the process (memory
     // unsafety in native code). Find the run that does it, one run per child process.
     for (start, stride, count, sig) in crashes {
-        let mut found = None;
+        let mut found: Option<ViolationReport> = None;
         for k in 0..count {
             let idx = start + k * stride;
             if best.as_ref().map(|b| b.idx < idx).unwrap_or(false) {
                 break;
             }
-            if let Some(s2) = run_single_child(&prop, tier, base, idx, &known_path) {
-                if s2 == sig || s2 != 0 {
-                    found = Some((idx, s2));
+            if let Some((s2, viol)) = run_child_share(&prop, tier, base, idx, 1, 1, &known_path) {
+                if s2 != 0 {
+                    found = Some(ViolationReport {
+                        idx,
+                        seed: mix_seed(base, idx),
+                        violation: Violation {
+                            property: prop.clone(),
+                            class: format!("crash:signal-{s2}"),
+                            detail: format!(
+                                "the process running this history was killed by signal {s2} (crash inside the system under test); re-run the seed to reproduce"
+                            ),
+                        },
+                        tape: vec![],
+                        orig_tape_len: 0,
+                        min_execs: 0,
+                        log: vec![],
+                    });
+                    break;
+                }
+                if let Some(v) = viol {
+                    // the same run shows an ordinary violation when it does not crash
+                    found = Some(v);
                     break;
                 }
             }
         }
-        match found {
-            Some((idx, s2)) => {
-                let v = ViolationReport {
-                    idx,
-                    seed: mix_seed(base, idx),
-                    violation: Violation {
-                        property: prop.clone(),
-                        class: format!("crash:signal-{s2}"),
-                        detail: format!(
-                            "the process running this history was killed by signal {s2} (crash inside the system under test); re-run the seed to reproduce"
-                        ),
-                    },
-                    tape: vec![],
-                    orig_tape_len: 0,
-                    min_execs: 0,
-                    log: vec![],
-                };
-                if best.as_ref().map(|b| v.idx < b.idx).unwrap_or(true) {
-                    best = Some(v);
-                }
-            }
-            None => {
-                println!(
-                    "HARNESS-ERROR a worker was killed by signal {sig} but no single run of its share reproduces it"
-                );
-                return 2;
-            }
+        if found.is_none() {
+            // the crash depends on the state the process accumulated over several runs:
+            // report the worker's whole share; the replay re-runs exactly that share
+            found = Some(ViolationReport {
+                idx: start,
+                seed: mix_seed(base, start),
+                violation: Violation {
+                    property: prop.clone(),
+                    class: format!("crash-share:signal-{sig}"),
+                    detail: format!(
+                        "a worker process running the histories {start}, {start}+{stride}, ... ({count} runs) was killed by signal {sig} (crash inside the system under test); no single run reproduces it alone"
+                    ),
+                },
+                tape: vec![start, stride, count],
+                orig_tape_len: 0,
+                min_execs: 0,
+                log: vec![],
+            });
+        }
+        let v = found.unwrap();
+        if best.as_ref().map(|b| v.idx < b.idx).unwrap_or(true) {
+            best = Some(v);
         }
     }
     let wall = t0.elapsed().as_secs_f64();
@@ -828,6 +863,31 @@ fn replay_main(world: &dyn World, args: &Args) -> i32 {
     if rf.world != world.name() {
         eprintln!("replay file is for world {}, this is {}", rf.world, world.name());
         return 2;
+    }
+    if rf.violation.class.starts_with("crash-share:") && rf.tape.len() == 3 {
+        let known = args.get("known").unwrap_or("/verif/known-findings.txt").to_string();
+        // a crash that needs accumulated process state may need a few attempts
+        for _ in 0..3 {
+            if let Some((sig, _)) = run_child_share(
+                &rf.property,
+                tier_of(&rf.tier),
+                rf.base_seed,
+                rf.tape[0],
+                rf.tape[1],
+                rf.tape[2],
+                &known,
+            ) {
+                if sig != 0 {
+                    if !quiet {
+                        println!("reproduced: the worker share was killed by signal {sig}");
+                    }
+                    println!("VIOLATION property={} replay={file}", rf.property);
+                    return 1;
+                }
+            }
+        }
+        println!("replay did not crash (recorded class {})", rf.violation.class);
+        return 0;
     }
     if rf.violation.class.starts_with("crash:") {
         // the violation is a crash of the whole process: reproduce it in a child
